@@ -24,7 +24,7 @@ from props import common
 
 ID = "C19"
 LEVEL = "exploration"
-QUICK_RUNS = 20000
+QUICK_RUNS = 12000
 QUICK_BUDGET_S = 50.0
 THOROUGH_RUNS = 10 ** 9
 BATCH = 50
@@ -47,7 +47,7 @@ COMPONENTS = {
     "oracle": ["inline-at-first-use schema built by the generator, parsed with parse_schema", "bytes of a generated datum under both schemas"],
 }
 PROBES = ["diamond", "cross_namespace_edge", "relative_spelling", "depth_ge3", "ref_in_array", "ref_in_map",
-          "ref_in_union", "missing_file_fault", "ordered_load", "null_namespace_graph", "enum_or_fixed_leaf"]
+          "ref_in_union", "missing_file_fault", "ordered_load", "null_namespace_graph", "enum_or_fixed_leaf", "depth_ge5"]
 PRIMS = ["int", "string", "boolean", "double", "bytes", "long"]
 
 
@@ -71,10 +71,17 @@ class Graph:
         self.edges = set()
         self.spell_rel = 0
         self.kinds_on_edges = set()
+        self.chain = ch.chance(20)
+        if self.chain:
+            # long dependency chain: every type but the last is a record that refers to the next one
+            for t in self.types[:-1]:
+                t["kind"] = "record"
         # fields
         for t in self.types:
             if t["kind"] != "record":
                 continue
+            if self.chain and t["i"] + 1 < n:
+                t["fields"].append(self._wrap(t, [self.types[t["i"] + 1]]))
             nf = 1 + ch.draw(4)
             for f in range(nf):
                 later = [u for u in self.types if u["i"] > t["i"]]
@@ -260,6 +267,8 @@ def run_one(ch, ctx):
         ctx.probe("relative_spelling")
     if shape["max_depth"] >= 3:
         ctx.probe("depth_ge3")
+    if shape["max_depth"] >= 5:
+        ctx.probe("depth_ge5")
     for k in g.kinds_on_edges:
         ctx.probe("ref_in_" + k)
     if g.mode == 0:
@@ -283,6 +292,20 @@ def run_one(ch, ctx):
         cf = F.schema.to_parsing_canonical_form(p)
         if cf != cf_inline:
             raise Violation("equivalence", "canonical-form-differs", detail={"how": how, "loaded": cf, "inline": cf_inline}, scenario=desc)
+        # the loaded schema must stay usable: a container file written with it is self-describing
+        if isinstance(how, str) and "SimRepository" in how:
+            return
+        try:
+            fo = io.BytesIO()
+            F.writer(fo, p, [datum], sync_marker=b"\x05" * 16)
+            fo.seek(0)
+            r = F.reader(fo)
+            back = list(r)
+            cf_file = F.schema.to_parsing_canonical_form(r.writer_schema)
+        except Exception as e:  # noqa
+            raise Violation("equivalence", "loaded-schema-not-usable-in-container", detail={"how": how, "exc": jsonable(e)}, scenario=desc)
+        if cf_file != cf_inline or len(back) != 1:
+            raise Violation("equivalence", "container-header-schema-differs", detail={"how": how, "file": cf_file, "inline": cf_inline}, scenario=desc)
         fo = io.BytesIO()
         try:
             F.schemaless_writer(fo, p, datum)
